@@ -43,6 +43,17 @@ def gap_Y(run, cfgs, rotors, n_samples, big_m=False):
                     run.violation("sYlm-raised", "Wigner.sYlm", {"ell_max": L, "mp_max": P, "s": s, "R": list(R), **band_info(R)}, "values", repr(e))
                     continue
                 inp = {"ell_max": L, "mp_max": P, "s": s, "R": list(R), **band_info(R)}
+                if i_rot < 3 and L <= 64:
+                    # the same request through an explicit workspace holding arbitrary previous content (np.empty garbage may be NaN)
+                    for fill in (float("nan"), 1e300):
+                        ws = w.new_workspace()
+                        ws[:] = fill
+                        Yw = w.sYlm(s, quaternionic.array(R), workspace=ws)
+                        if not np.array_equal(Yw, Y, equal_nan=True):
+                            k = int(np.flatnonzero(~((Yw == Y) | (np.isnan(Yw) & np.isnan(Y))))[0])
+                            run.violation("sYlm-not-finite" if not np.all(np.isfinite(Yw)) else "sYlm-depends-on-workspace-content", "Wigner.sYlm",
+                                          {**inp, "workspace_prefilled_with": repr(fill), "flat_index": k}, str(complex(Y[k])), str(complex(Yw[k])))
+                            break
                 if not np.all(np.isfinite(Y)):
                     i = int(np.flatnonzero(~np.isfinite(Y))[0])
                     run.violation("sYlm-not-finite", "Wigner.sYlm", {**inp, "flat_index": i}, "finite", str(Y[i]))
